@@ -52,6 +52,8 @@ def run(ctx):
     ctx.rule("R4", "READY is written only after authenticate_cids() == Ok(true), and followed by wake_all on every path")
     ctx.rule("R5", "Parameters.map is written only by Parameters::set, after belong_to()? and validate()?")
     ctx.rule("R6", "the 0-RTT comparison list equals the RFC's eight ids, each a VarInt with a default")
+    ctx.rule("R8", "unknown parameter ids are skipped, not terminal: in parse_from_bytes the UnknownParameterId arm goes back to the "
+                   "parsing loop, so every later parameter is still stored and validated")
     ctx.rule("R7", "param::Error maps to TRANSPORT_PARAMETER_ERROR")
     names = variant_names(prog, PID) or {}
     ctx.floor("R1", "ParameterId variants", len(names), 20)
@@ -284,6 +286,22 @@ def run(ctx):
         deleg = [callee(t) for i, t in b.calls() if "From<" in callee(t) and "param::error::Error" in callee(t)]
         ok = kinds == {"TransportParameter"} or (not kinds and deleg)
         ctx.ob("R7", "%s|TransportParameter" % b.short, ok, b.where(), "ErrorKind constructed: %s delegates: %s" % (sorted(kinds), deleg))
+    # ---------------------------------------------------------------- R8
+    pf = [b for b in prog.bodies.values() if re.search(r"param::io::<impl qbase::param::Parameters<R>>::parse_from_bytes$|param::Parameters<R>::parse_from_bytes$", b.short)]
+    pf = pf or [b for b in prog.bodies.values() if b.short.endswith("::parse_from_bytes") and b.crate == "qbase" and "param" in b.short and b.kind != "closure"]
+    ctx.floor("R8", "parse_from_bytes bodies", len(pf), 1)
+    for b in pf[:2]:
+        ctx.touch(b)
+        heads = sorted(set(v for u in b.live_blocks() for v in b.succ(u) if b.dominates(v, u)))
+        tb = arm_table(prog, b, "qbase::param::error::Error") or {}
+        arm = tb.get("UnknownParameterId")
+        # the loop the arm sits in: a head that dominates the arm (later loops of the function do not count)
+        encl = [h for h in heads if arm is not None and b.dominates(h, arm["target"]) and arm["target"] in b.reachable_from(h)]
+        ok = arm is not None and bool(encl) and any(h in b.reachable_from(arm["target"]) for h in encl)
+        ctx.ob("R8", "%s|the unknown-id arm continues the loop" % b.short, ok, b.where(),
+               "arm for Error::UnknownParameterId found: %s; a loop head is reachable from it: %s — with `break` everything after a GREASE or "
+               "extension parameter is neither stored nor validated: out-of-range or role-inappropriate values are accepted and legal "
+               "ones silently replaced by defaults" % (arm is not None, ok))
 
 
 def agg_sites_in(body, blk, variant):
